@@ -42,6 +42,7 @@ def bootstrap():
 
     _BOOT["config_snapshot"] = dict(_config_dict())
     _BOOT["tf"] = tf
+    _BOOT["containers"] = _snapshot_containers()
     import matplotlib
 
     matplotlib.use("Agg")
@@ -56,6 +57,60 @@ def _config_dict():
         if isinstance(v, dict):
             return v
     raise RuntimeError("cannot locate tf_pwa config dict")
+
+
+def _snapshot_containers():
+    """Every mutable container that lives at module level or class level in tf_pwa (registries, class-level
+    caches, mutable defaults of functions): their import-time content is what a fresh interpreter would see.
+    Returned as [(container, shallow copy)] so that isolate_begin can put the content back IN PLACE."""
+    import types
+
+    out, seen = [], set()
+
+    def add(c):
+        if type(c) in (dict, list, set) and id(c) not in seen:
+            seen.add(id(c))
+            out.append((c, type(c)(c)))
+
+    def add_func(f):
+        for d in (getattr(f, "__defaults__", None) or ()):
+            add(d)
+        for d in (getattr(f, "__kwdefaults__", None) or {}).values():
+            add(d)
+
+    cfg = _config_dict()
+    seen.add(id(cfg))  # handled on its own (config snapshot)
+    for n, m in sorted(sys.modules.items()):
+        if not n.startswith("tf_pwa") or m is None or ".tests" in n:
+            continue
+        for name, obj in list(vars(m).items()):
+            if name.startswith("__"):
+                continue
+            add(obj)
+            if isinstance(obj, types.FunctionType) and getattr(obj, "__module__", "").startswith("tf_pwa"):
+                add_func(obj)
+            if isinstance(obj, type) and getattr(obj, "__module__", "").startswith("tf_pwa"):
+                for k, v in list(vars(obj).items()):
+                    if k.startswith("__") and k not in ("__init__", "__call__"):
+                        continue
+                    add(v)
+                    f = v.__func__ if isinstance(v, (staticmethod, classmethod)) else v
+                    if isinstance(f, types.FunctionType):
+                        add_func(f)
+    return out
+
+
+def _restore_containers():
+    n = 0
+    for c, snap in _BOOT.get("containers", ()):
+        if c != snap:
+            n += 1
+            if isinstance(c, list):
+                c[:] = snap
+            else:
+                c.clear()
+                c.update(snap)
+    return n
 
 
 def _clear_lru():
@@ -103,6 +158,7 @@ def isolate_begin():
         ID_SEAM.install()
     ID_SEAM.reset()
     _clear_lru()
+    _restore_containers()
     gc.collect()
 
 
